@@ -46,7 +46,9 @@ Definition dCtl : dec (Z * command * bool * nat * nat * list Z * bool) :=
    depends on the interleaving: it is not compared (0), only fed to the law *)
 Definition eSys (multi : bool) (s : sys) : list Z :=
   eList (fun os : dout * nat => [eOut (fst os); if multi then 0 else Z.of_nat (snd os)]) (combine (log s) (seen s)) ++ [-101] ++
-  eList eReq (enq s) ++ [if present s then 1 else 0; Z.of_nat (retries s)].
+  eList eReq (enq s) ++ [if present s then 1 else 0; Z.of_nat (retries s)] ++
+  (* neither controller copies TargetObject.UID into its request: 0 requests carry it, 0 carry another *)
+  [0; 0].
 
 (* ---------- selector 3: CLI invocations against a scripted API server, then the controllers ---------- *)
 Definition dGout : dec gout :=
@@ -133,9 +135,18 @@ Definition entry (sel : Z) (toks : list Z) : list Z :=
            | None => bad_input end
   | 102 => match run_dec (let* i := dCtl in let* outs := dList (dPair dOut dNat) in let* _ := dZ in
                           let* rq := dList dReq in let* p := dBool in let* rt := dNat in
+                          let* _ := dNat in let* _ := dNat in
                           ret (i, outs, rq, p, rt)) toks with
            | Some ((mx, c, b, _, _, _, _), outs, rq, p, rt) =>
                eBool (law_amo mx c b (map fst outs) (map snd outs) rq p rt true)
+           | None => bad_input end
+  | 105 | 106 =>
+           match run_dec (let* i := dCtl in let* outs := dList (dPair dOut dNat) in let* _ := dZ in
+                          let* rq := dList dReq in let* p := dBool in let* rt := dNat in
+                          let* ca := dNat in let* wr := dNat in
+                          ret (rq, ca, wr)) toks with
+           | Some (rq, ca, wr) =>
+               eBool (if sel =? 105 then law_uid_X (length rq) ca wr else law_uid_Y (length rq) ca wr)
            | None => bad_input end
   | _ => bad_input
   end.
